@@ -16,6 +16,53 @@ pub struct C06 {
     /// last had no open position in it
     first_eff: BTreeMap<(String, String), u64>,
     ok_before: BTreeSet<String>,
+    /// what the pending claim pays per farm and epoch, measured by claiming the same span epoch by
+    /// epoch on a fork: (farm key, epoch, amount)
+    attrib: Option<Vec<(FarmKey, Option<u64>, u128)>>,
+    /// paid to all users so far per farm and epoch
+    paid_fe: BTreeMap<(FarmKey, u64), u128>,
+}
+
+/// identifier, start epoch, reward denom, emission rate (a farm re-created under an old identifier is another farm)
+type FarmKey = (String, u64, String, u128);
+
+fn farm_key(f: &mantra_dex_std::farm_manager::Farm) -> FarmKey {
+    (f.identifier.clone(), f.start_epoch, f.farm_asset.denom.clone(), f.emission_rate.u128())
+}
+
+const ATTRIB_MAX_SPAN: u64 = 32;
+
+/// Claims (lo..=upto) one epoch at a time on a fork and reads every farm's `claimed_amount` after each
+/// claim. Spans longer than ATTRIB_MAX_SPAN are attributed at both ends only (the middle is claimed in
+/// one message and attributed to nobody, which under-counts and is therefore sound): `None` marks it.
+fn attribute(c: &mut SimCore, user: &str, lo: u64, upto: u64) -> Option<Vec<(FarmKey, Option<u64>, u128)>> {
+    let snap = c.w.snapshot();
+    c.stats.forks += 1;
+    let mut prev: BTreeMap<FarmKey, u128> = c.w.farms().iter().map(|f| (farm_key(f), f.claimed_amount.u128())).collect();
+    let mut v = vec![];
+    let half = ATTRIB_MAX_SPAN / 2;
+    let epochs: Vec<(u64, bool)> = if upto - lo < ATTRIB_MAX_SPAN {
+        (lo..=upto).map(|e| (e, true)).collect()
+    } else {
+        (lo..lo + half).map(|e| (e, true)).chain(std::iter::once((upto - half, false))).chain((upto - half + 1..=upto).map(|e| (e, true))).collect()
+    };
+    for (e, single) in epochs {
+        let o = c.exec_op(&Op::Fm { sender: user.to_string(), msg: FmMsg::Claim { until_epoch: Some(e) }, funds: vec![] }, None);
+        if !o.ok() {
+            c.w.restore(&snap);
+            return None;
+        }
+        let now: BTreeMap<FarmKey, u128> = c.w.farms().iter().map(|f| (farm_key(f), f.claimed_amount.u128())).collect();
+        for (k, a) in now.iter() {
+            let p = prev.get(k).copied().unwrap_or(0);
+            if *a > p {
+                v.push((k.clone(), if single { Some(e) } else { None }, a - p));
+            }
+        }
+        prev = now;
+    }
+    c.w.restore(&snap);
+    Some(v)
 }
 
 fn dry_claim_ok(c: &mut SimCore, user: &str) -> bool {
@@ -33,6 +80,23 @@ fn users_with_open(o: &Obs) -> BTreeSet<String> {
 impl Monitor for C06 {
     fn pre(&mut self, c: &mut SimCore, step: &Step, pre: &Obs) -> MResult {
         self.ok_before.clear();
+        self.attrib = None;
+        if let (Op::Fm { sender, msg: FmMsg::Claim { until_epoch }, funds }, None, Some(cur)) = (&step.op, &step.fault, c.w.current_epoch()) {
+            let upto = until_epoch.unwrap_or(cur);
+            let lo = match pre.last_claimed.get(sender) {
+                Some(l) => Some(l + 1),
+                None => pre.weights.keys().filter(|(a, _, _)| a == sender).map(|(_, _, e)| *e).min(),
+            };
+            if let Some(lo) = lo {
+                if funds.is_empty() && upto <= cur && upto >= lo && pre.positions.iter().any(|p| p.open && p.receiver.as_str() == sender) {
+                    self.attrib = attribute(c, sender, lo, upto);
+                    c.stats.bump(if self.attrib.is_some() { "probe.c06.claim_attributed_per_epoch" } else { "probe.c06.claim_not_attributable" });
+                    if upto - lo >= ATTRIB_MAX_SPAN {
+                        c.stats.bump("probe.c06.claim_attributed_at_both_ends_only");
+                    }
+                }
+            }
+        }
         if let Op::Fm { sender, msg: FmMsg::Claim { .. }, .. } = &step.op {
             for u in users_with_open(pre) {
                 if &u != sender && dry_claim_ok(c, &u) {
@@ -114,6 +178,45 @@ impl Monitor for C06 {
                 }
                 if !paid.is_empty() {
                     c.stats.bump("probe.c06.claim_paid");
+                }
+                // ---- per farm and epoch: what all users were paid for it never exceeds its emission.
+                // The claim is attributed to epochs by the epoch-by-epoch schedule run on a fork before
+                // it; used only when that schedule pays every farm exactly what the claim paid (that
+                // they agree is C07's statement, not this one's).
+                if let Some(att) = self.attrib.take() {
+                    let mut by_farm: BTreeMap<FarmKey, u128> = BTreeMap::new();
+                    for (k, _, a) in att.iter() {
+                        *by_farm.entry(k.clone()).or_insert(0) += a;
+                    }
+                    let mut real: BTreeMap<FarmKey, u128> = BTreeMap::new();
+                    for f in post.farms.iter() {
+                        let k = farm_key(f);
+                        let before = pre.farms.iter().find(|g| farm_key(g) == k).map(|g| g.claimed_amount.u128()).unwrap_or(0);
+                        if f.claimed_amount.u128() > before {
+                            real.insert(k, f.claimed_amount.u128() - before);
+                        }
+                    }
+                    if by_farm == real {
+                        for (k, e, a) in att {
+                            let e = match e {
+                                Some(e) => e,
+                                None => continue,
+                            };
+                            let t = self.paid_fe.entry((k.clone(), e)).or_insert(0);
+                            *t += a;
+                            if *t > k.3 {
+                                return Err(viol(
+                                    "C06.epoch_overpaid",
+                                    format!("farm {} (rate {} {} per epoch): all users together were paid {} for epoch {e}; the last {a} went to {}", k.0, k.3, k.2, *t, c.w.a.name(sender)),
+                                ));
+                            }
+                            if *t > a {
+                                c.stats.bump("probe.c06.epoch_shared_by_several_claims");
+                            }
+                        }
+                    } else {
+                        c.stats.bump("probe.c06.attribution_disagrees_with_claim");
+                    }
                 }
                 if let Some(u) = until_epoch {
                     if *u < cur {
@@ -210,6 +313,8 @@ impl Monitor for C06 {
             open_by.insert((p.receiver.to_string(), p.lp_asset.denom.clone()));
             any_open.insert(p.receiver.to_string());
         }
+        let live: BTreeSet<FarmKey> = post.farms.iter().map(farm_key).collect();
+        self.paid_fe.retain(|(k, _), _| live.contains(k));
         self.first_eff.retain(|k, _| open_by.contains(k));
         self.cursor.retain(|u, _| any_open.contains(u));
         if !matches!(&step.op, Op::Fm { msg: FmMsg::Claim { .. }, .. }) {
